@@ -118,13 +118,14 @@ impl LanguageServer for Server {
     ) -> BoxFuture<'static, Result<Option<GotoDefinitionResponse>, Self::Error>> {
         tracing::info!("goto_definition: {params:?}");
         let task = self.spawn_with_snapshot(params, move |snap, params| {
-            let (pos, line_index) =
-                from_proto::file_pos(&snap, params.text_document_position_params);
+            let (pos, _) = from_proto::file_pos(&snap, params.text_document_position_params);
             let Some(location) = snap.analysis.goto_definition(pos) else {
                 return Ok(None);
             };
 
             let vfs = snap.vfs.read().unwrap();
+            // the definition may lie in an included file: use that file's line index
+            let line_index = snap.analysis.line_index(location.file);
             let lsp_location = to_proto::location(&vfs, &line_index, location);
             Ok(Some(GotoDefinitionResponse::Scalar(lsp_location)))
         });
@@ -137,14 +138,18 @@ impl LanguageServer for Server {
     ) -> BoxFuture<'static, Result<Option<Vec<Location>>, Self::Error>> {
         tracing::info!("references: {params:?}");
         let task = self.spawn_with_snapshot(params, move |snap, params| {
-            let (pos, line_index) = from_proto::file_pos(&snap, params.text_document_position);
+            let (pos, _) = from_proto::file_pos(&snap, params.text_document_position);
             let Some(location_list) = snap.analysis.references(pos) else {
                 return Ok(None);
             };
             let vfs = snap.vfs.read().unwrap();
             let lsp_location_list = location_list
                 .into_iter()
-                .map(|it| to_proto::location(&vfs, &line_index, it))
+                .map(|it| {
+                    // a reference may lie in another file of the workspace: use that file's line index
+                    let line_index = snap.analysis.line_index(it.file);
+                    to_proto::location(&vfs, &line_index, it)
+                })
                 .collect();
             Ok(Some(lsp_location_list))
         });
